@@ -167,6 +167,8 @@ func (c *connection) send(conn net.Conn, connDone chan bool) {
 		default:
 			select {
 			case m = <-c.client.sendQueue: // Fetch jobs
+			case <-connDone: // connection closed while waiting for jobs
+				return
 			case <-t.C:
 				if c.isClosed {
 					return
@@ -178,6 +180,14 @@ func (c *connection) send(conn net.Conn, connDone chan bool) {
 				}
 				continue
 			}
+		}
+		select {
+		case <-connDone:
+			// the connection was closed while this goroutine was waiting: leave the message to
+			// the sender of the next connection instead of writing it to the dead one
+			c.client.sendFailQueue <- m
+			return
+		default:
 		}
 		atomic.AddInt32(&c.invokeNum, 1)
 		if c.client.config.WriteTimeout != 0 {
